@@ -67,6 +67,8 @@ mod error;
 mod regret;
 mod solve;
 mod split;
+#[cfg(feature = "verif")]
+pub mod verif;
 
 use compact::{Builder, OptBuilder};
 pub use error::{GameError, SolveError, StratError};
